@@ -112,7 +112,7 @@ func defsParse(data []byte) (*Node, error) {
 		return c.root, c.err
 	}
 	root, err := ParseXML(data)
-	if len(defsParseCache) > 512 {
+	if len(defsParseCache) > 128 {
 		defsParseCache = map[string]defsParsed{}
 	}
 	defsParseCache[string(data)] = defsParsed{root, err}
